@@ -6,6 +6,7 @@ the Python side and is mutated in place during one run, so the interpreter is an
 recursive AST walker.
 """
 import ast
+import os
 import time
 import z3
 
@@ -18,6 +19,11 @@ from . import regex2smt
 
 class OutOfReach(Exception):
     """The code left the supported subset: never a violation."""
+
+
+class ScopeInfeasible(Exception):
+    """The context of a temporary assumption turned out contradictory: whatever is being evaluated
+    under it cannot matter (the assumption is false on this path)."""
 
 
 class PathEnd(Exception):
@@ -162,6 +168,11 @@ class Context(object):
         self.depth = 0
         self.temp_depth = 0
         self.star_candidates = {}
+        self.names = {}
+        self.native_checked = set()
+        self.cut_depth = None
+        self.cut_prefixes = []
+        self.in_sub = 0
         self.axioms = []
 
     # ---- solver -----------------------------------------------------------------------
@@ -216,7 +227,7 @@ class Context(object):
 
     def fresh(self, base, sort="str"):
         self.fresh_n += 1
-        name = "%s!%d" % (base, self.fresh_n)
+        name = "%s_f%d" % (base, self.fresh_n)
         if sort == "str":
             return SStr(z3.String(name))
         if sort == "int":
@@ -242,24 +253,33 @@ class Context(object):
         if self.pos < len(self.decisions):
             d = self.decisions[self.pos]
             self.pos += 1
+            if isinstance(d, tuple):
+                return d[1]          # forced decision: entailed by the solver state, nothing to record
             self.assume(cond if d else z3.Not(cond))
             return d
+        if self.cut_depth is not None and self.pos >= self.cut_depth and not self.temp_depth and not self.in_sub:
+            self.cut_prefixes.append(list(self.decisions[:self.pos]))
+            raise PathEnd("cut")
         rt, _, _ = self.check(cond)
         rf, _, _ = self.check(z3.Not(cond))
         t_ok = rt != "unsat"
         f_ok = rf != "unsat"
         if not t_ok and not f_ok:
             if self.temp_depth:
-                raise OutOfReach("engine: contradictory context inside a temporary assumption")
+                raise ScopeInfeasible()
             raise PathEnd("infeasible")
         if t_ok and f_ok:
             self.queue.append(self.decisions[:self.pos] + [False])
             d = True
-        else:
-            d = t_ok
-        self.decisions.append(d)
+            self.decisions.append(d)
+            self.pos += 1
+            self.assume(cond if d else z3.Not(cond))
+            return d
+        # only one side is feasible: the outcome is entailed by the current solver state (which may
+        # include a temporary assumption), so it must NOT be added to the path condition
+        d = t_ok
+        self.decisions.append(("forced", d))
         self.pos += 1
-        self.assume(cond if d else z3.Not(cond))
         return d
 
     def choose(self, n):
@@ -269,6 +289,9 @@ class Context(object):
                 d = self.decisions[self.pos]
                 self.pos += 1
             else:
+                if self.cut_depth is not None and self.pos >= self.cut_depth and not self.temp_depth and not self.in_sub:
+                    self.cut_prefixes.append(list(self.decisions[:self.pos]))
+                    raise PathEnd("cut")
                 self.queue.append(self.decisions[:self.pos] + [False])
                 d = True
                 self.decisions.append(d)
@@ -304,6 +327,15 @@ class Context(object):
                     solver = "z3+cvc5"
                     continue
                 verdict, model = "unknown", None
+                dump = os.environ.get("H5V_DUMP")
+                if dump:
+                    os.makedirs(dump, exist_ok=True)
+                    sd = z3.Solver()
+                    for a in self.solver.assertions():
+                        sd.add(a)
+                    sd.add(neg)
+                    with open(os.path.join(dump, "unknown-%d-%d.smt2" % (os.getpid(), len(self.obligations))), "w") as fh:
+                        fh.write("; %s\n(set-logic ALL)\n" % oid + sd.to_smt2())
                 break
         ms = (time.time() - t0) * 1000
         self.obligations.append(Obligation(oid, kind, verdict, ms, solver, detail, model,
@@ -337,9 +369,12 @@ class Context(object):
                                            self.path_index, tags))
 
     # ---- exploration ------------------------------------------------------------------
-    def explore(self, thunk):
-        """Run thunk() under every decision sequence."""
-        self.queue = [[]]
+    def explore(self, thunk, initial=None, cut_depth=None):
+        """Run thunk() under every decision sequence (optionally only below the given prefixes; with
+        cut_depth, stop at the first *new* decision at that depth and collect the prefixes reached)."""
+        self.queue = [list(p) for p in initial] if initial else [[]]
+        self.cut_depth = cut_depth
+        self.cut_prefixes = []
         self.path_index = 0
         n = 0
         while self.queue:
@@ -352,6 +387,7 @@ class Context(object):
             self.fresh_n = 0
             self.leaves = []
             self.star_candidates = {}
+            self.names = {}
             self.new_solver()
             self.path_index = n
             try:
@@ -364,6 +400,7 @@ class Context(object):
         """Explore a *pure* computation from the current state under all its own decisions.
         Returns [(extra_pc, value)].  The surrounding path's decisions are untouched."""
         saved = (self.decisions, self.pos, self.queue)
+        self.in_sub += 1
         results = []
         q = [[]]
         base_len = len(self.pc)
@@ -390,6 +427,7 @@ class Context(object):
                         q.append(d)
         finally:
             self.decisions, self.pos, self.queue = saved
+            self.in_sub -= 1
         return results
 
 
@@ -551,8 +589,6 @@ def int_value(self, z, base):
     self.assume(z3.Implies(z == zero, r == 0))
     # eight or more digits without a leading zero: at least 10**7 (16**7), beyond every code point
     self.assume(z3.Implies(z3.And(z3.Length(z) >= 8, z3.SubString(z, 0, 1) != zero), r > 0x10FFFF))
-    if base == 10:
-        self.assume(z3.Implies(z3.Length(z) <= 7, r == z3.StrToInt(z)))
     return r
 
 
@@ -562,3 +598,6 @@ def leading_zero_facts(self, whole, l, m):
     for base in (10, 16):
         f = self.opaque_fn("intval%d" % base, [z3.StringSort()], z3.IntSort())
         self.assume(f(whole) == z3.If(z3.Length(m) == 0, z3.IntVal(0), f(m)))
+        self.assume(f(m) >= 0)
+        # m has no leading zero: eight or more digits are beyond every code point
+        self.assume(z3.Implies(z3.Length(m) >= 8, f(m) > 0x10FFFF))
